@@ -1,9 +1,11 @@
 import PrologVerif.Driver.Common
 import PrologVerif.Driver.C18
+import PrologVerif.Driver.C06
 open PrologVerif PrologVerif.Driver
 
 def handlers : List (String × Handler) :=
   [ ("c18.hist", C18.handler) ]
+  ++ [ ("c06.lex", C06.lexHandler), ("c06.atoms", C06.atomsHandler), ("c06.numbers", C06.numbersHandler), ("c06.terms", C06.termsHandler) ]
 
 partial def loop (h : IO.FS.Stream) (out : IO.FS.Stream) (f : Handler) : IO Unit := do
   let line ← h.getLine
